@@ -1284,6 +1284,17 @@ impl Formatter {
             dt.day = 0;
         }
 
+        // The sign of an interval is written before the first field, whichever field that is.
+        let mut is_sign_set = false;
+        if T::IS_INTERVAL_YM || T::IS_INTERVAL_DT {
+            let rem = if FX { s } else { eat_whitespaces(s) };
+            if let Some(sign @ (b'+' | b'-')) = rem.first() {
+                dt.negative = *sign == b'-';
+                is_sign_set = true;
+                s = &rem[1..];
+            }
+        }
+
         macro_rules! expect_char {
             ($ch: expr) => {{
                 if expect_char(s, $ch) {
@@ -1386,7 +1397,12 @@ impl Formatter {
                                 "(full) year must be between 1 and 9999".try_to_string()?,
                             ));
                         }
-                        dt.negative = negative;
+                        if negative && is_sign_set {
+                            return Err(Error::ParseError(
+                                "the interval is invalid".try_to_string()?,
+                            ));
+                        }
+                        dt.negative |= negative;
                         dt.year = year;
                         s = rem;
                         is_year_set = true;
@@ -1443,8 +1459,13 @@ impl Formatter {
                                     .try_to_string()?,
                             ));
                         }
+                        if negative && is_sign_set {
+                            return Err(Error::ParseError(
+                                "the interval is invalid".try_to_string()?,
+                            ));
+                        }
                         dt.day = day.unsigned_abs();
-                        dt.negative = negative;
+                        dt.negative |= negative;
                         is_day_set = true;
                     } else {
                         return Err(Error::ParseError(
